@@ -700,6 +700,9 @@ func (r *runner) finalChecks() {
 	if r.has("reads-are-scoped") {
 		r.addV(checkReadsAreScoped(r)...)
 	}
+	if r.has("metadata-history-reads") {
+		r.addV(checkMetadataHistoryReads(r)...)
+	}
 	if r.has("reads-respect-features") {
 		r.addV(checkReadsRespectFeatures(r)...)
 	}
